@@ -43,8 +43,12 @@ func (p *Program) newExec(mode ExecMode) *Exec {
 // inv.init / inv.pres obligation is not discharged are dropped and the function is re-run, and
 // candidate variants are tried in turn. Surviving candidates are ordinary proved invariants.
 func (p *Program) genObligations(fn *ssa.Function, mode ExecMode, rel *relCtx) (rep *FnReport) {
+	began := time.Now()
 	for iter := 0; iter < 8; iter++ {
 		rep = p.genObligationsOnce(fn, mode, rel)
+		if rep.Aborted != "" || rep.Panic != "" || time.Since(began) > genBudget {
+			return rep // given up: no point in refining candidate invariants
+		}
 		var auto []*Obligation
 		for _, o := range rep.Obs {
 			if strings.Contains(o.Kind, ".auto.") || (strings.HasPrefix(o.Kind, "decreases.loop") && o.autoVariant != "") {
@@ -95,11 +99,16 @@ func (p *Program) genObligations(fn *ssa.Function, mode ExecMode, rel *relCtx) (
 	return rep
 }
 
+var genBudget = 90 * time.Second
+
 func (p *Program) genObligationsOnce(fn *ssa.Function, mode ExecMode, rel *relCtx) (rep *FnReport) {
 	ex := p.newExec(mode)
 	ex.rel = rel
 	rep = &FnReport{Key: p.keyOf(fn)}
 	start := time.Now()
+	// symbolic execution of one function is bounded in time: a function that explodes (a change may
+	// add code far outside the engine's reach) is given up, and a function that is given up proves nothing
+	ex.deadline = start.Add(genBudget)
 	func() {
 		defer func() {
 			if r := recover(); r != nil {
